@@ -158,7 +158,7 @@ class TlcResult:
         m = re.findall(r"(\d[\d,]*) states generated, (\d[\d,]*) distinct states found", text)
         self.generated = int(m[-1][0].replace(",", "")) if m else 0
         self.distinct = int(m[-1][1].replace(",", "")) if m else 0
-        self.violated = re.findall(r"Invariant (\w+) is violated", text)
+        self.violated = re.findall(r"Invariant (\w+) is violated", text) + re.findall(r"The invariant of (\w+) is equal to FALSE", text)
         self.temporal = "Temporal properties were violated" in text
         self.deadlock = "Deadlock reached" in text
         self.completed = "Model checking completed. No error has been found." in text
@@ -282,7 +282,8 @@ def concat_traces(paths, out):
 def validate_trace(spec_module, trace_file, strict=True, timeout=600, tag="tv", max_tid=64, leak=False):
     """Run TLC on a (concatenated) trace.  Accepted iff NotAccepted is violated."""
     base = {"TraceCompress": ["Compress.tla", "TraceCompress.tla"],
-            "TraceExpand": ["Expand.tla", "TraceExpand.tla"]}[spec_module]
+            "TraceExpand": ["Expand.tla", "TraceExpand.tla"],
+            "TraceCopy": ["Copy.tla", "TraceCopy.tla"]}[spec_module]
     d = spec_workdir(tag, base)
     with open(os.path.join(d, "T.cfg"), "w") as f:
         f.write("SPECIFICATION Spec\nCONSTANTS Strict = %s\n MaxTid = %d\n%s"
